@@ -2,6 +2,8 @@ package sym
 
 import (
 	"fmt"
+	"os"
+	"strconv"
 	"go/token"
 	"go/types"
 	"math/big"
@@ -166,6 +168,33 @@ func registerIntrinsics(e *Engine) {
 	I["vEvent"] = func(st *State, a []Value) Value {
 		st.events = append(st.events, Event{Tag: constStr(st, a[0], "event tag"), Args: a[1:]})
 		return nil
+	}
+	// trace inspection: number of recorded events whose tag starts with a prefix
+	I["vEventCount"] = func(st *State, a []Value) Value {
+		pre := constStr(st, a[0], "event prefix")
+		n := 0
+		for _, ev := range st.events {
+			if strings.HasPrefix(ev.Tag, pre) {
+				n++
+			}
+		}
+		return st.E.intTerm(big.NewInt(int64(n)), types.Typ[types.Int])
+	}
+	// vEventArgIs(tag, k, v): argument k of the last event with that tag is identical to v
+	I["vEventArgIs"] = func(st *State, a []Value) Value {
+		tag := constStr(st, a[0], "event tag")
+		k := st.concreteInt(a[1], "argument index")
+		for i := len(st.events) - 1; i >= 0; i-- {
+			ev := st.events[i]
+			if ev.Tag != tag {
+				continue
+			}
+			if k >= len(ev.Args) {
+				return FalseT
+			}
+			return st.eqValues(ev.Args[k], a[2])
+		}
+		return FalseT
 	}
 	I["vSymbolic"] = func(st *State, a []Value) Value { return TrueT }
 	I["vConcretizeInt"] = func(st *State, a []Value) Value {
@@ -582,6 +611,32 @@ func registerLibHooks(e *Engine) {
 		}
 		st.unsupported("reflect.Value.Pointer on %T", v.F[1])
 		return nil
+	}
+	// os.Expand on a constant pattern: the real os.Expand drives the parsing, the
+	// mapping function is the (symbolic) callee.
+	H["os.Expand"] = func(st *State, a []Value) Value {
+		pat := a[0].(*Term)
+		if !pat.Const {
+			st.unsupported("os.Expand with a symbolic pattern")
+		}
+		fv := a[1].(*FuncV)
+		var parts []*Term
+		res := os.Expand(pat.CS, func(name string) string {
+			r := st.Call(fv, []Value{StrT(name)}, nil).(*Term)
+			parts = append(parts, r)
+			return fmt.Sprintf("\x00%d\x00", len(parts)-1)
+		})
+		out := StrT("")
+		for _, seg := range strings.Split(res, "\x00") {
+			out2 := out
+			if n, err := strconv.Atoi(seg); err == nil && len(seg) > 0 && n < len(parts) && strings.Contains(res, "\x00"+seg+"\x00") {
+				out2 = StrConcat(out, parts[n])
+			} else {
+				out2 = StrConcat(out, StrT(seg))
+			}
+			out = out2
+		}
+		return out
 	}
 	H["runtime.Callers"] = func(st *State, a []Value) Value { return st.E.intTerm(big.NewInt(0), intT) }
 	H["runtime/debug.Stack"] = func(st *State, a []Value) Value { return &SliceV{} }
